@@ -251,7 +251,7 @@ func checkCase(c Case, rec *evid.Rec) (err error) {
 				r = srch.Run(s, b, false, opts...)
 			}
 		}
-		warmed := i > 0 || c.TT <= 32*1024
+		warmed := i > 0 || c.TT <= 128*1024
 		// the third-occurrence rule makes a root final too; skip those (C06 owns them)
 		if err := judge(p, r, rec, warmed); err != nil {
 			return fmt.Errorf("search %d (%+v) of the game from %s after %v: %v", i, st, c.FEN, played, err)
@@ -304,7 +304,7 @@ func genCase(t *rapid.T) Case {
 		c.Moves = append(c.Moves, m.String())
 		return true
 	})
-	c.TT = []int{32 * 1024, 32 * 1024, 1 << 20}[gen.Draw(t, 0, 2, "tt")]
+	c.TT = []int{128 * 1024, 128 * 1024, 1 << 20}[gen.Draw(t, 0, 2, "tt")]
 	n := gen.Draw(t, 1, 6, "steps")
 	for i := 0; i < n; i++ {
 		st := Step{Depth: gen.Draw(t, 1, 9, "depth"), Nodes: -1, Pick: -1}
